@@ -61,6 +61,20 @@ theorem inv_stepJoinRet (s s' : St) (j u : UnitId) (h : Inv s) (hs : stepJoinRet
   · cases hs; exact h
   · cases hs
 
+theorem inv_stepXferB (s s' : St) (f t : UnitId) (h : Inv s) (hs : stepXferB s f t = some s') : Inv s' := by
+  unfold stepXferB at hs
+  cases hl : s.loc t <;> simp only [hl] at hs <;> (repeat' (split at hs)) <;>
+  (first
+   | (cases hs; done)
+   | (rename_i hg
+      have e1 := cntP_erase s.owedL f (s.chargedPool f)
+      have e2 := cntU_erase s.owedL f (s.chargedPool f)
+      have e3 := cntU_pos_of_mem s.owedL f (s.chargedPool f) hg.2.2.2.2.1
+      have e4 : ∀ v q, (v, q) ∈ s.owedL.erase (f, s.chargedPool f) → (v, q) ∈ s.owedL := fun v q hm => List.mem_of_mem_erase hm
+      have e5 : ∀ v q, (v, q) ∈ s.owedL → (v, q) ≠ (f, s.chargedPool f) → (v, q) ∈ s.owedL.erase (f, s.chargedPool f) :=
+        fun v q hm hne => (List.mem_erase_of_ne hne).mpr hm
+      close_tac h hs))
+
 theorem inv_step (s s' : St) (e : Ev) (h : Inv s) (hs : step s e = some s') : Inv s' := by
   cases e with
   | create u p => exact inv_stepCreate s s' u p h hs
@@ -81,6 +95,7 @@ theorem inv_step (s s' : St) (e : Ev) (h : Inv s) (hs : step s e = some s') : In
   | reqClr u r => exact inv_stepReqClr s s' u r h hs
   | migrate u p => exact inv_stepMigrate s s' u p h hs
   | joinRet j u => exact inv_stepJoinRet s s' j u h hs
+  | xferB f t => exact inv_stepXferB s s' f t h hs
 
 theorem inv_reachable (s : St) (h : machine.Reachable s) : Inv s :=
   Machine.invariant_reachable machine Inv inv_init (fun s e s' hi hs => inv_step s s' e hi hs) s h
